@@ -466,6 +466,20 @@ func Shapes(tm *Tmpl, rng *rand.Rand, perTok int, full bool) []Shape {
 			}
 		} else {
 			pick = rng.Perm(len(h))[:perTok]
+			// the empty string is always tried
+			has := false
+			for _, j := range pick {
+				if h[j] == "" {
+					has = true
+				}
+			}
+			if !has {
+				for j := range h {
+					if h[j] == "" {
+						pick = append(pick, j)
+					}
+				}
+			}
 		}
 		for _, j := range pick {
 			a := cp()
@@ -478,6 +492,7 @@ func Shapes(tm *Tmpl, rng *rand.Rand, perTok int, full bool) []Shape {
 					a := cp()
 					a[i] = aw
 					out = append(out, Shape{"area@" + strconv.Itoa(i) + ":" + aw, a})
+					out = append(out, Shape{"areaend@" + strconv.Itoa(i) + ":" + aw, cp2(a[:i+1])})
 				}
 			}
 		}
@@ -522,6 +537,8 @@ func areaPosition(args []string, i int) bool {
 	}
 	return true
 }
+
+func cp2(a []string) []string { return append([]string(nil), a...) }
 
 func lowerFirst(a []string) []string {
 	for i := range a {
